@@ -359,7 +359,7 @@ Definition parse_taxon (o : phy_ropts) (ntax nchar : Z) (rows : list (text * lis
     let lab := if r_u2s o then replace_char 95 32 lab1 else lab1 in
     match find_row lab rows O with
     | Some (i, v) =>
-      if nchar <=? len v then Err TypeErr        (* the message is built with %d of a sequence *)
+      if nchar <=? len v then Err ParseErr       (* already has the declared number of characters *)
       else Ok (rows, i, rest)
     | None =>
       let rows' := rows ++ [(lab, [])] in
@@ -432,7 +432,10 @@ Definition read_phylip (o : phy_ropts) (t : text) : res (list (text * list C)) :
            else
              do rows <- (if r_interleaved o then phylip_interleaved o ntax nchar [] false (-1) body
                          else phylip_sequential o ntax nchar [] None body) ;;
-             if len rows =? ntax then Ok rows else Err ParseErr
+             if len rows =? ntax then
+               (* every sequence must have exactly the declared number of characters *)
+               if forallb (fun r => len (snd r) =? nchar) rows then Ok rows else Err ParseErr
+             else Err ParseErr
          end
        end.
 
